@@ -94,16 +94,27 @@ Definition mod_ (x y : num) : res :=
 Definition equalIntAndFloat (n : Z) (f : f64) : bool :=
   let nf := go_f2i f in feq (of_int nf) f && (nf =? n).
 
-(* func ltIntAndFloat(n int64, f float64) bool { nf := int64(f)
-     if float64(nf) == f { return n < nf }; return float64(n) < f } *)
-Definition ltIntAndFloat (n : Z) (f : f64) : bool :=
+(* const twoTo63 = float64(1 << 63) *)
+Definition f2p63 : f64 := of_mant_exp 1 63 false.
+
+(* func ltIntAndFloat(n int64, f float64) bool {
+     if f >= twoTo63 { return true }
+     nf := int64(f); if float64(nf) == f { return n < nf }; return float64(n) < f } *)
+Definition ltIntAndFloat_core (n : Z) (f : f64) : bool :=
   let nf := go_f2i f in if feq (of_int nf) f then n <? nf else flt (of_int n) f.
+Definition ltIntAndFloat (n : Z) (f : f64) : bool :=
+  if fle f2p63 f then true else ltIntAndFloat_core n f.
 Definition ltFloatAndInt (f : f64) (n : Z) : bool :=
   let nf := go_f2i f in if feq (of_int nf) f then nf <? n else flt f (of_int n).
 Definition leIntAndFloat (n : Z) (f : f64) : bool :=
   let nf := go_f2i f in if feq (of_int nf) f then n <=? nf else fle (of_int n) f.
-Definition leFloatAndInt (f : f64) (n : Z) : bool :=
+(* func leFloatAndInt(f float64, n int64) bool {
+     if f >= twoTo63 { return false }
+     nf := int64(f); if float64(nf) == f { return nf <= n }; return f <= float64(n) } *)
+Definition leFloatAndInt_core (f : f64) (n : Z) : bool :=
   let nf := go_f2i f in if feq (of_int nf) f then nf <=? n else fle f (of_int n).
+Definition leFloatAndInt (f : f64) (n : Z) : bool :=
+  if fle f2p63 f then false else leFloatAndInt_core f n.
 
 (* RawEqual on two numbers: Value.Equals (same type: int ==, float ==), else mixed *)
 Definition num_eq (x y : num) : bool :=
@@ -192,8 +203,13 @@ Definition math_ceil (x : num) : num :=
               let n := go_f2i f' in if feq (of_int n) f' then NInt n else NFlt f'
   end.
 
-(* math.fmod is implemented as rt.Mod *)
-Definition math_fmod (x y : num) : res := mod_ x y.
+(* math.fmod (after the repair): two integers: d == 0 is an error, else Go's truncated x % d;
+   otherwise math.Mod on the operands converted to float64 *)
+Definition math_fmod (x y : num) : res :=
+  match x, y with
+  | NInt a, NInt b => if b =? 0 then RErr EModZero else ROk (NInt (rem64 a b))
+  | _, _ => ROk (NFlt (fmod (tofloat x) (tofloat y)))
+  end.
 
 (* math.tointeger on a number: ToInt *)
 Definition math_tointeger (x : num) : option Z := ToIntNoString x.
